@@ -10,7 +10,10 @@ TraceRecs == ndJsonDeserialize("trace.ndjson")
 Props == {"C20", "DRIFT"}
 B(x) == IF x THEN 1 ELSE 0
 
-Visible(rec) == LET ix == SelectSeq([i \in 1..Len(rec.names) |-> i], LAMBDA i : ~rec.hidden[i]) IN [k \in 1..Len(ix) |-> rec.names[ix[k]]]
+\* a command is hidden when its Hidden field is set or, declared by struct tag, when its hidden tag carries ANY non-empty text
+\* (command.go:252: "no", "0" and "false" hide as well)
+IsHidden(rec, i) == rec.hidden[i] \/ (rec.byTag /\ rec.hiddenTag[i] # E)
+Visible(rec) == LET ix == SelectSeq([i \in 1..Len(rec.names) |-> i], LAMBDA i : ~IsHidden(rec, i)) IN [k \in 1..Len(ix) |-> rec.names[ix[k]]]
 
 Judge(rec) ==
   LET o == rec.obs
@@ -23,7 +26,7 @@ Judge(rec) ==
               ELSE got \in allowed
   IN [C20 |-> good, DRIFT |-> TRUE,
       suggest |-> B(\E a \in allowed : a.kind = "suggest"), enum |-> B(\E a \in allowed : a.kind = "enum"),
-      multibyte |-> B(\E i \in 1..Len(rec.word) : rec.word[i] > 127), hidden |-> B(\E i \in 1..Len(rec.hidden) : rec.hidden[i])]
+      multibyte |-> B(\E i \in 1..Len(rec.word) : rec.word[i] > 127), hidden |-> B(\E i \in 1..Len(rec.hidden) : IsHidden(rec, i))]
 
 StatKeys == {"suggest", "enum", "multibyte", "hidden"}
 \* One state per record.  The judging is done in an invariant, not in the action: TLC caches lazily evaluated
